@@ -108,9 +108,9 @@ pub fn churn_campaign() -> SimCampaign {
 
 pub fn plan(_tier: Tier) -> Plan {
     Plan {
-        campaigns: vec![Box::new(main_campaign()), Box::new(churn_campaign()), Box::new(probe_r8())],
+        campaigns: vec![Box::new(main_campaign()), Box::new(churn_campaign()), Box::new(probe_r8()), Box::new(crate::fullstack::flow::Flow)],
         enumerators: vec![],
-        rule: "Histories biased to request packets (QoS 1/2 publishes incl. bursts, PUBREL in publish order, SUBSCRIBE 1-3 filters, UNSUBSCRIBE, PINGREQ, several packets per notification) from 2-4 clients against the real router. Oracle: per client the sequence of DeviceAck notifications equals the model's owed-ack list (kind, packet id, SUBACK codes, request order) as a prefix at every drain and completely at every idle point; QoS 2 publishes enter the acceptance log (and the delivery oracle of C01) only at their release. Second campaign (acks_churn): clients 0 and 1 never send a packet out of place but disconnect, fail and resume; the others also send packets out of place; half of all packets are pipelined behind an earlier one without a notification of their own, so closing packets (DISCONNECT, violating packet) have requests queued behind them: the same ack and delivery clauses on clients 0 and 1 (an ack or forward of another connection's packet shows as unsolicited / foreign). Non-trivial: >=1 request processed while its connection was paused as busy or inflight-full and >=1 QoS 2 publish flow completed (PUBCOMP received); distinct by history hash.".into(),
+        rule: "Histories biased to request packets (QoS 1/2 publishes incl. bursts, PUBREL in publish order, SUBSCRIBE 1-3 filters, UNSUBSCRIBE, PINGREQ, several packets per notification) from 2-4 clients against the real router. Oracle: per client the sequence of DeviceAck notifications equals the model's owed-ack list (kind, packet id, SUBACK codes, request order) as a prefix at every drain and completely at every idle point; QoS 2 publishes enter the acceptance log (and the delivery oracle of C01) only at their release. Second campaign (acks_churn): clients 0 and 1 never send a packet out of place but disconnect, fail and resume; the others also send packets out of place; half of all packets are pipelined behind an earlier one without a notification of their own, so closing packets (DISCONNECT, violating packet) have requests queued behind them: the same ack and delivery clauses on clients 0 and 1 (an ack or forward of another connection's packet shows as unsolicited / foreign). Non-trivial: >=1 request processed while its connection was paused as busy or inflight-full and >=1 QoS 2 publish flow completed (PUBCOMP received); distinct by history hash. The acknowledgement clauses are also decided end to end through the real link code by the campaign shared with C09 — ".to_string() + crate::fullstack::flow::FLOW_RULE,
         assumptions: vec![
             "QoS 2 releases are issued in publish order (as the quantifier states)".into(),
             "UNSUBSCRIBE of several / unknown filters is generated everywhere since R8 was repaired; persistent sessions do not UNSUBSCRIBE in the asserted clients (R17, DESIGN §0)".into(),
